@@ -198,15 +198,16 @@ func TestVerifC01(t *testing.T) {
 		}
 		run.Count("init_ok", 1)
 		// E: what the early allocator handed to the map seam
-		for _, mc := range env.maps {
-			pr, off := m.locate(mc.Frame)
+		for _, fr := range env.earlySeq() {
+			pr, off := m.locate(fr)
 			if pr == nil || pr.st[off] != pmmvFree {
 				run.Count("early_frame_not_in_free_ram", 1) // judged by C02
 				continue
 			}
 			m.set(pr, off, pmmvEarly)
 		}
-		run.Count("early_frames", int64(len(env.maps)))
+		run.Count("early_frames", int64(len(env.earlySeq())))
+		run.Count("early_frames_taken_by_the_map_seam_for_page_tables", int64(len(env.pt)))
 		if len(env.maps) >= 2 {
 			run.Count("configs_with_2_or_more_early_frames", 1)
 		}
@@ -303,8 +304,8 @@ func TestVerifC01(t *testing.T) {
 				run.Count("fixed_init_not_ok", 1)
 				return
 			}
-			for _, mc := range env.maps {
-				if pr, off := m.locate(mc.Frame); pr != nil && pr.st[off] == pmmvFree {
+			for _, fr := range env.earlySeq() {
+				if pr, off := m.locate(fr); pr != nil && pr.st[off] == pmmvFree {
 					m.set(pr, off, pmmvEarly)
 				}
 			}
